@@ -54,7 +54,7 @@ theorem unused_exact (norm : String → String) (m : Method)
     (hw : WellDeclared norm m = true) (ha : Agrees norm m = true) :
     unusedModel norm m = unusedSpec norm m := by
   have hcong : (tracker countFlag Cfg.fixed.uv norm).run (.enter :: m.body.map (uvAct Cfg.fixed)) =
-      (tracker countFlag Cfg.fixed.uv norm).run (.enter :: m.body.map specAct) := by
+      (tracker countFlag Cfg.fixed.uv norm).run (.enter :: acts m) := by
     apply tracker_congr countFlag Cfg.fixed.uv norm rfl rfl
     intro e he
     simp only [Agrees, List.all_eq_true] at ha
@@ -64,16 +64,16 @@ theorem unused_exact (norm : String → String) (m : Method)
   have hne : noEnter (acts m) = true := by
     simp only [noEnter, acts, List.all_map, List.all_eq_true, Function.comp, bne_iff_ne]
     intro e he
-    exact specAct_not_enter (m.hbody e he)
+    split
+    · exact specAct_not_enter (m.hbody e he)
+    · simp
   have := tracker_spec countFlag countFlag_lawful Cfg.fixed.uv norm rfl rfl (acts m) hne hw
   rw [unusedModel, uvRun_code]
   unfold uvRun uvRaw
-  rw [hacts, hcong]
-  simp only [acts] at this
-  rw [this]
-  simp only [trackSpec, unusedSpec, locals, mentioned, acts]
-  have e := filterMap_ite_map (fun d : String × Range => hitIn norm (m.body.map specAct) (norm d.1))
-    (fun d => TOut.unhit (norm d.1) d.1 d.2) (decls (m.body.map specAct))
+  rw [hacts, hcong, this]
+  simp only [trackSpec, unusedSpec, locals, mentioned]
+  have e := filterMap_ite_map (fun d : String × Range => hitIn norm (acts m) (norm d.1))
+    (fun d => TOut.unhit (norm d.1) d.1 d.2) (decls (acts m))
   rw [e, List.map_map]
   rfl
 
